@@ -652,6 +652,14 @@ type dirState struct {
 	usedShm          bool // some message of this direction travelled through the shared-memory queue
 	usedFallback     bool // ... through the socket
 	shmAfterFallback bool // ... through the queue after an earlier one went through the socket
+	closeRunning     bool   // the writer's Close() has been called and has not returned
+	qfAtClose        uint64 // queue-full counter of the session when that Close() started
+}
+
+// closeWentViaSocket also recognises a Close that is still running: the peer can observe the socket notification
+// before Close() returns to the harness (the library counts the full queue before it writes to the socket).
+func (d *dirState) closeWentViaSocket(we *endState) bool {
+	return d.closeViaSocket || (d.closeRunning && we.stream != nil && we.stream.session.stats.queueFullErrorCount != d.qfAtClose)
 }
 
 type endState struct {
@@ -1316,7 +1324,10 @@ func (w *sessWorld) closeEnd(ss *sessStream, end int, role int) {
 	d.closeSegMark = mark
 	simrt.Event("CLOSE s%d end%d role=%d", ss.idx, end, role)
 	qfBefore := es.stream.session.stats.queueFullErrorCount
+	d.qfAtClose = qfBefore
+	d.closeRunning = true
 	err := es.stream.Close()
+	d.closeRunning = false
 	if es.stream.session.stats.queueFullErrorCount != qfBefore {
 		// the queue was full: the close notification went through the socket although the data went through the queue
 		d.closeViaSocket = true
@@ -1354,7 +1365,7 @@ func (w *sessWorld) beforeCall(es *endState) {
 func (w *sessWorld) tagThread(ss *sessStream, dir int) {
 	wend, _ := endsOf(dir)
 	usedFallback := ss.dirs[dir].usedFallback || (ss.ends[wend].stream != nil && ss.ends[wend].stream.inFallbackState)
-	if (usedFallback && (ss.dirs[dir].usedShm || ss.dirs[dir].closeInvoked)) || (ss.dirs[dir].closeViaSocket && ss.dirs[dir].usedShm) {
+	if (usedFallback && (ss.dirs[dir].usedShm || ss.dirs[dir].closeInvoked)) || (ss.dirs[dir].closeWentViaSocket(ss.ends[wend]) && ss.dirs[dir].usedShm) {
 		simrt.SetTag("transport_switch", "yes")
 	}
 	if w.fallbackFlagCleared(ss, dir) {
@@ -1770,7 +1781,7 @@ func (w *sessWorld) ctxTags(ss *sessStream, dir int) map[string]string {
 	// (the writer's sticky fallback flag is set inside Flush before the data leaves, i.e. before the harness' own
 	// bookkeeping after Flush returns: look at it as well)
 	usedFallback := d.usedFallback || (we.stream != nil && we.stream.inFallbackState)
-	if (usedFallback && (d.usedShm || d.closeInvoked)) || (d.closeViaSocket && d.usedShm) {
+	if (usedFallback && (d.usedShm || d.closeInvoked)) || (d.closeWentViaSocket(we) && d.usedShm) {
 		tags["transport_switch"] = "yes" // messages (or the close) of this direction travelled through both the queue and the socket
 	}
 	if w.fallbackFlagCleared(ss, dir) {
